@@ -115,7 +115,7 @@ def handle (toks : List String) : Option String :=
           let P ← parsePt c P; let O ← parsePt c O; some (res showPt (ptAdd P O))
       | "pt_double", [P] => do let P ← parsePt c P; some (res showPt (ptDouble P))
       | "pt_neg", [P] => do let P ← parsePt c P; some (res showPt (ptNeg P))
-      | "precompute", [P] => do let P ← parsePJ c P; some (res showTable (precomputeTable P))
+      | "precompute", [P] => do let P ← parsePJ c P; some (res showTable (maybePrecompute P []))
       | "pj_mul", [P, k] => do
           let P ← parsePJ c P; let k ← parseInt k; some (res showPt (pjMul P k))
       | "pt_mul", [P, k] => do
